@@ -183,3 +183,68 @@ Proof.
   assert (N : RtoC 1 <> RtoC 0) by (intros H; apply RtoC_inj in H; lra).
   split; [lra|]. split; [exact N|]. apply std_model_ops_ok; [exact N | apply pert_std_model; lra].
 Qed.
+
+(* ---------------------------------------------------------------- an arithmetic with a BOUNDED RANGE *)
+(* [sat_ops e]: as [pert_ops e], but a product of modulus > 1000 "overflows" (0 is returned).  It is NOT an instance of
+   std_model; yet on x^2 - 5x + 2 every operation quadratic_solve performs stays in range, [quad_ops_ok] holds, and
+   quadratic_residual_local applies: the local theorem is strictly more general than the global one. *)
+Definition sat_ops (e : R) : RoundOps := {|
+  o_radd := Rplus; o_rsub := Rminus; o_rmul := Rmult; o_rdiv := Rdiv; o_rsqrt := R_sqrt.sqrt; o_rfrac := [];
+  o_kabs := Cmod; o_kabsA := fun z => RtoC (Cmod z); o_kdivr := fun z r => (z / RtoC r)%C;
+  o_kltb := fun _ _ => false; o_kleb := fun _ _ => false; o_pow := fun z _ => z; o_polar := fun r _ => RtoC r;
+  o_add := o_add (pert_ops e); o_sub := o_sub (pert_ops e);
+  o_mul := fun x y => if Rle_dec (Cmod (x * y)%C) 1000 then o_mul (pert_ops e) x y else RtoC 0;
+  o_div := o_div (pert_ops e); o_scale := o_scale (pert_ops e); o_sqrt := o_sqrt (pert_ops e) |}.
+
+Lemma sat_not_std_model (e : R) : 0 <= e < 1 -> ~ std_model e (sat_ops e).
+Proof.
+  intros He (_ & _ & Hm & _). specialize (Hm (RtoC 100) (RtoC 100)). cbn [o_mul sat_ops] in Hm.
+  rewrite <- RtoC_mult in Hm. rewrite Cmod_R, Rabs_pos_eq in Hm by lra.
+  destruct (Rle_dec (100 * 100) 1000) as [L|_]; [lra|].
+  replace (RtoC 0 - RtoC (100 * 100))%C with (- RtoC (100 * 100))%C in Hm by ring.
+  rewrite Cmod_opp, Cmod_R, Rabs_pos_eq in Hm by lra. nra.
+Qed.
+
+Lemma sat_mul_small (e : R) (x y : C) : Cmod (x * y)%C <= 1000 -> o_mul (sat_ops e) x y = o_mul (pert_ops e) x y.
+Proof. intros H. cbn [o_mul sat_ops]. destruct (Rle_dec (Cmod (x * y)%C) 1000) as [_|N]; [reflexivity|contradiction]. Qed.
+
+Lemma Cmod_Csqrt_sqr (z : C) : Cmod (Csqrt z) * Cmod (Csqrt z) = Cmod z.
+Proof. now rewrite <- Cmod_mult, Csqrt_sqr. Qed.
+
+Lemma sat_ops_ok_lemma :
+  let e := / 1024 in
+  (0 <= e <= / 100) /\ RtoC 1 <> RtoC 0 /\ ~ std_model e (sat_ops e) /\ quad_ops_ok e (sat_ops e) (RtoC 1) (RtoC (-5)) (RtoC 2).
+Proof.
+  intros e. assert (He : 0 <= e <= / 100) by (unfold e; lra).
+  assert (N : RtoC 1 <> RtoC 0) by (intros H; apply RtoC_inj in H; lra).
+  split; [exact He|]. split; [exact N|]. split; [apply sat_not_std_model; lra|].
+  pose proof (std_model_ops_ok e (pert_ops e) (RtoC 1) (RtoC (-5)) (RtoC 2) N (pert_std_model e (proj1 He))) as P.
+  set (f := 1 + e). assert (Hf : 1 <= f <= 1.001) by (unfold f, e; lra).
+  set (a := RtoC 1) in *. set (b := RtoC (-5)) in *. set (c := RtoC 2) in *.
+  set (a4 := o_scale (pert_ops e) a (INR 4)).
+  set (dh := o_sub (pert_ops e) (o_mul (pert_ops e) b b) (o_mul (pert_ops e) a4 c)).
+  set (sh := o_sqrt (pert_ops e) dh).
+  assert (Mb : Cmod b = 5) by (unfold b; rewrite Cmod_R, Rabs_left; lra).
+  assert (Mf : Cmod (RtoC f) = f) by (rewrite Cmod_R, Rabs_pos_eq; lra).
+  assert (Ma4 : Cmod a4 = 4 * f).
+  { unfold a4, a. cbn [o_scale pert_ops]. fold f. rewrite !Cmod_mult, Cmod_1, Cmod_INR4, Mf. ring. }
+  assert (Mc : Cmod c = 2) by (unfold c; rewrite Cmod_R, Rabs_pos_eq; lra).
+  assert (C1' : Cmod (b * b)%C <= 1000) by (rewrite Cmod_mult, Mb; lra).
+  assert (C2' : Cmod (a4 * c)%C <= 1000) by (rewrite Cmod_mult, Ma4, Mc; lra).
+  assert (Mdh : Cmod dh <= 40).
+  { unfold dh. cbn [o_sub o_mul pert_ops]. fold f. rewrite Cmod_mult, Mf.
+    assert (K : Cmod (b * b * RtoC f - a4 * c * RtoC f)%C <= 25 * f + 8 * f * f).
+    { eapply Rle_trans; [apply Cmod_minus_le|]. rewrite !Cmod_mult, Mb, Ma4, Mc, Mf. lra. }
+    pose proof (Cmod_ge_0 (b * b * RtoC f - a4 * c * RtoC f)%C). nra. }
+  assert (Msh : Cmod sh <= 8).
+  { unfold sh. cbn [o_sqrt pert_ops]. fold f. rewrite Cmod_mult, Mf.
+    pose proof (Cmod_Csqrt_sqr dh) as K. pose proof (Cmod_ge_0 (Csqrt dh)).
+    assert (Cmod (Csqrt dh) <= 7) by (destruct (Rle_dec (Cmod (Csqrt dh)) 7) as [L|G]; [exact L | exfalso; nra]). nra. }
+  assert (C3' : Cmod (Cconj b * sh)%C <= 1000) by (rewrite Cmod_mult, Cmod_Cconj, Mb; lra).
+  unfold quad_ops_ok in *. cbv zeta in *.
+  change (o_scale (sat_ops e)) with (o_scale (pert_ops e)). change (o_add (sat_ops e)) with (o_add (pert_ops e)).
+  change (o_sub (sat_ops e)) with (o_sub (pert_ops e)). change (o_div (sat_ops e)) with (o_div (pert_ops e)).
+  change (o_sqrt (sat_ops e)) with (o_sqrt (pert_ops e)).
+  fold a4. rewrite (sat_mul_small e b b C1'). rewrite (sat_mul_small e a4 c C2'). fold dh. fold sh.
+  rewrite (sat_mul_small e (Cconj b) sh C3'). fold a4 dh sh in P. exact P.
+Qed.
